@@ -535,7 +535,7 @@ def prelude(kind):
     """the process has already used another cassette: a recording with non-ascii text saved and read back through it (keys are
     functions of the call alone, whatever this process stored before)"""
     if not kind or kind == 'none':
-        return
+        return None
     import shutil
     import tempfile
     from playback.tape_recorder import TapeRecorder
@@ -572,9 +572,14 @@ def prelude(kind):
             return r
         cassette.create_new_recording = create
         Op().execute()
+        status = None
         for rid in ids:
-            tr.play(rid, lambda recording: Op().execute())
+            try:
+                tr.play(rid, lambda recording: Op().execute())
+            except Exception as ex:
+                status = '%s: %s' % (type(ex).__name__, str(ex)[:200])
         cassette.close()
+        return status
     finally:
         if tmp:
             shutil.rmtree(tmp, ignore_errors=True)
@@ -792,7 +797,7 @@ class C06(Prop):
     def run_batch(self, case):
         from playback.tape_recorder import TapeRecorder
         from playback.tape_cassettes.in_memory.in_memory_tape_cassette import InMemoryTapeCassette
-        prelude(case.get('prelude'))
+        prelude_status = prelude(case.get('prelude'))
         cassette = InMemoryTapeCassette()
         tr = TapeRecorder(cassette)
         tr.enable_recording()
@@ -816,12 +821,11 @@ class C06(Prop):
             out.append({'direct': direct, 'decorated': decorated})
             ident, has_set = identity_and_sets(site, args, kwargs)
             idents.append([ident, has_set])
-        return {'calls': out, 'idents': idents, 'xproc': {}}
+        return {'calls': out, 'idents': idents, 'xproc': {}, 'prelude': prelude_status}
 
     def run_replay(self, case):
         from playback.tape_recorder import TapeRecorder
         from playback.tape_cassettes.in_memory.in_memory_tape_cassette import InMemoryTapeCassette
-        prelude(case.get('prelude'))
         cassette = InMemoryTapeCassette()
         tr = TapeRecorder(cassette)
         tr.enable_recording()
@@ -972,6 +976,9 @@ class C06(Prop):
                                      'recording holds %r for this call' % (tag, j, seed, g, e))
             return fails
         calls, idents = impl['calls'], impl['idents']
+        if impl.get('prelude'):
+            fails.append('[replay noset] an operation with a non-ascii argument recorded through a %s cassette and replayed by the same '
+                         'process right after the save: %s' % (case.get('prelude'), impl['prelude']))
         for i, c in enumerate(calls):
             d, e = c['direct'], c['decorated']
             ok = (e == '<discarded>') if isinstance(d, str) and d.startswith('ERR:') else (e == d)
